@@ -8,6 +8,7 @@ exact value `toRat? x`, never by enumeration.  Helper lemmas: `Retro.Lemmas.F32O
 import Retro.Model.Tex
 import Retro.Spec.Tex
 import Retro.Lemmas.F32Ops
+import Retro.Lemmas.F32Nearest
 
 namespace Retro.Props.C12
 open Retro Retro.F32 Retro.Tex
@@ -16,7 +17,7 @@ open Retro Retro.F32 Retro.Tex
 
 /-- `… & (2^k − 1)` is below `2^k` for every bit pattern: NaN, ±∞, huge values included. -/
 theorem repeat_in_bounds (k : ℕ) (x : UInt32) : repeatAxis (2 ^ k - 1) x < 2 ^ k := by
-  unfold repeatAxis
+  unfold repeatAxis repeatAxisF
   have h : i32ToU32 (toI32Sat (floor x)) &&& (2 ^ k - 1) ≤ 2 ^ k - 1 := Nat.and_le_right
   have : 0 < 2 ^ k := Nat.two_pow_pos k
   omega
@@ -48,7 +49,7 @@ theorem wrap_mask_eq_emod (z : ℤ) (k : ℕ) (hk : k ≤ 32) :
 `⌊x⌋ mod 2^k` (Euclidean remainder – negative coordinates wrap from the far edge). -/
 theorem repeat_index (k : ℕ) (hk : k ≤ 32) {x : UInt32} {q : ℚ} (hx : toRat? x = some q)
     (hq : |q| < 2 ^ 31) : ((repeatAxis (2 ^ k - 1) x : ℕ) : ℤ) = ⌊q⌋ % 2 ^ k := by
-  unfold repeatAxis
+  unfold repeatAxis repeatAxisF
   rw [floor_i32_of_small hx hq]
   exact wrap_mask_eq_emod _ k hk
 
@@ -66,7 +67,7 @@ example : toRat? 0xC0200000 = some (-5/2) ∧ repeatAxis (2 ^ 2 - 1) 0xC0200000 
 
 /-- NaN addresses texel 0. -/
 theorem repeat_nan (mask : ℕ) {x : UInt32} (h : isNaN x = true) : repeatAxis mask x = 0 := by
-  unfold repeatAxis toI32Sat
+  unfold repeatAxis repeatAxisF toI32Sat
   rw [toIntSat_nan (by rw [floor_isNaN]; exact h)]
   simp [i32ToU32]
 
@@ -130,7 +131,7 @@ theorem clamp_index {x hi : UInt32} {q h : ℚ} (hx : toRat? x = some q) (hhi : 
     (h0 : 0 ≤ h) (h1 : h < 2 ^ 32) :
     clampAxisHi hi x = .ok (⌊max 0 (min q h)⌋.toNat) := by
   obtain ⟨c, hc, hv⟩ := clamp_finite hx hhi h0
-  unfold clampAxisHi
+  unfold clampAxisHi clampAxisHiF
   rw [hc]; dsimp only
   have hm0 : 0 ≤ max 0 (min q h) := le_max_left _ _
   have hmh : max 0 (min q h) ≤ h := max_le h0 (min_le_right _ _)
@@ -166,7 +167,7 @@ theorem clamp_index_spec {x hi : UInt32} {q : ℚ} {w : ℕ} (hw : 1 ≤ w) (hw'
 /-- NaN: `clamp` keeps it, `floor` keeps it, `as u32` gives texel 0. -/
 theorem clamp_nan {x hi : UInt32} {h : ℚ} (hx : isNaN x = true) (hhi : toRat? hi = some h)
     (h0 : 0 ≤ h) : clampAxisHi hi x = .ok 0 := by
-  unfold clampAxisHi clamp
+  unfold clampAxisHi clampAxisHiF clamp
   rw [le_finite toRat?_zero hhi, gt, lt_nan_left hx, lt_nan_right hx]
   simp only [h0, decide_true, Bool.not_true, Bool.false_eq_true, ↓reduceIte]
   unfold toU32Sat
@@ -187,7 +188,7 @@ theorem clamp_in_bounds {hi : UInt32} {h : ℚ} (hhi : toRat? hi = some h) (h0 :
     · -- ±∞
       have hn' : isNaN x = false := by simpa using hn
       have hi_nn : isNaN hi = false := isNaN_eq_false_of_some hhi
-      unfold clampAxisHi clamp
+      unfold clampAxisHi clampAxisHiF clamp
       rw [le_finite toRat?_zero hhi]
       simp only [h0, decide_true, Bool.not_true, Bool.false_eq_true, ↓reduceIte]
       have hlt0 : lt x 0 = signBit x := by
@@ -378,19 +379,88 @@ theorem repeat_never_panics {j k : ℕ} (hj : j ≤ 31) (hk : k ≤ 31) (u v : U
       repeatSampleAbs s (Texture.ofDims (2 ^ j) (2 ^ k)) u v = .ok (iu, iv) ∧
       iu < 2 ^ j ∧ iv < 2 ^ k ∧ iu = repeatAxis (2 ^ j - 1) u ∧ iv = repeatAxis (2 ^ k - 1) v := by
   refine ⟨_, _, _, repeat_new_ok hj hk, ?_, repeat_in_bounds j u, repeat_in_bounds k v, rfl, rfl⟩
-  unfold repeatSampleAbs index Texture.ofDims
-  simp [repeat_in_bounds j u, repeat_in_bounds k v]
+  have h1 := repeat_in_bounds j u
+  have h2 := repeat_in_bounds k v
+  unfold repeatAxis at h1 h2
+  unfold repeatSampleAbs repeatSampleAbsF index Texture.ofDims repeatAxis
+  simp [h1, h2]
 
-/-- **clamp_never_panics.** On every non-empty texture up to `2^24` per side, for every pair of
+/-! ### The clamping sampler on textures of *any* size (after fix 5063a3c)
+
+`tex.w = width as f32` and the bound `tex.w - 1.0` are both rounded beyond 2^24, so the float clamp
+alone can leave the texture; the integer guard `u.min(width - 1)` keeps it inside. -/
+
+/-- `width as f32` of any `u32` width `1 ≤ w ≤ 2^32` is a finite value in `[1, 2^32]`. -/
+theorem width_as_f32 {w : ℕ} (hw : 1 ≤ w) (hw' : w ≤ 2 ^ 32) :
+    ∃ wf : ℚ, toRat? (intToF32 (w : ℤ)) = some wf ∧ 1 ≤ wf ∧ wf ≤ 2 ^ 32 := by
+  unfold intToF32
+  have h1 : Rep (1 : ℚ) := by simpa using rep_two_pow (k := 0) (by norm_num)
+  have h2 : Rep ((2 : ℚ) ^ 32) := rep_two_pow (by norm_num)
+  exact ofRat_between h1 h2 (by exact_mod_cast hw) (by exact_mod_cast hw')
+
+/-- The clamp bound `tex.w - 1.0` is a finite non-negative value for every non-empty texture, so
+`clamp(0.0, tex.w - 1.0)` never panics. -/
+theorem clamp_bound_nonneg {w : ℕ} (hw : 1 ≤ w) (hw' : w ≤ 2 ^ 32) :
+    ∃ h : ℚ, toRat? (sub (intToF32 (w : ℤ)) one) = some h ∧ 0 ≤ h := by
+  obtain ⟨wf, hwf, h1, h2⟩ := width_as_f32 hw hw'
+  unfold sub add
+  rw [isNaN_eq_false_of_some hwf, isNaN_eq_false_of_some toRat?_neg_one, hwf, toRat?_neg_one]
+  simp only [Bool.or_self, Bool.false_eq_true, ↓reduceIte]
+  split
+  · split
+    · exact ⟨0, toRat?_zeroS _, le_refl _⟩
+    · exact ⟨0, toRat?_zero, le_refl _⟩
+  · have hb : Rep ((2 : ℚ) ^ 32) := rep_two_pow (by norm_num)
+    obtain ⟨v, hv, hv0, -⟩ := ofRat_between (q := wf + -1) Rep.zero hb (by linarith) (by linarith)
+    exact ⟨v, hv, hv0⟩
+
+/-- With a finite non-negative bound the clamp axis returns an index for every bit pattern. -/
+theorem clamp_axis_total {hi : UInt32} {h : ℚ} (hhi : toRat? hi = some h) (h0 : 0 ≤ h) (x : UInt32) :
+    ∃ u, clampAxisHi hi x = .ok u := by
+  unfold clampAxisHi clampAxisHiF clamp
+  rw [le_finite toRat?_zero hhi]
+  simp only [h0, decide_true, Bool.not_true, Bool.false_eq_true, ↓reduceIte]
+  by_cases h1 : lt x 0 = true
+  · simp only [h1, ↓reduceIte]; exact ⟨_, rfl⟩
+  · by_cases h2 : gt x hi = true
+    · simp only [h1, h2, ↓reduceIte]; exact ⟨_, rfl⟩
+    · simp only [h1, h2, ↓reduceIte]; exact ⟨_, rfl⟩
+
+/-- **clamp_never_panics.** On every non-empty texture of *any* `u32` size, for every pair of
 coordinate bit patterns, the clamping sampler returns a texel inside the texture. -/
-theorem clamp_never_panics {w h : ℕ} (hw : 1 ≤ w) (hw' : w ≤ 2 ^ 24) (hh : 1 ≤ h) (hh' : h ≤ 2 ^ 24)
+theorem clamp_never_panics {w h : ℕ} (hw : 1 ≤ w) (hw' : w ≤ 2 ^ 32) (hh : 1 ≤ h) (hh' : h ≤ 2 ^ 32)
     (u v : UInt32) :
     ∃ iu iv, clampSampleAbs (Texture.ofDims w h) u v = .ok (iu, iv) ∧ iu < w ∧ iv < h := by
-  obtain ⟨iu, hu, hul⟩ := clamp_axis_in_bounds hw hw' u
-  obtain ⟨iv, hv, hvl⟩ := clamp_axis_in_bounds hh hh' v
-  refine ⟨iu, iv, ?_, hul, hvl⟩
-  unfold clampSampleAbs Texture.ofDims
+  obtain ⟨bw, hbw, hbw0⟩ := clamp_bound_nonneg hw hw'
+  obtain ⟨bh, hbh, hbh0⟩ := clamp_bound_nonneg hh hh'
+  obtain ⟨iu, hu⟩ := clamp_axis_total hbw hbw0 u
+  obtain ⟨iv, hv⟩ := clamp_axis_total hbh hbh0 v
+  have hul : min iu (w - 1) < w := by omega
+  have hvl : min iv (h - 1) < h := by omega
+  refine ⟨min iu (w - 1), min iv (h - 1), ?_, hul, hvl⟩
+  unfold clampAxisHi at hu hv
+  unfold clampSampleAbs clampSampleAbsF clampAxisF Texture.ofDims
   simp only [hu, hv]
+  unfold index; simp [hul, hvl]
+
+/-- **clamp_sample_index.** Up to `2^24` per side the guard is inactive and the sampler addresses
+exactly the clamped floor of each coordinate (`Spec.Tex.clampIdx`), for finite coordinates. -/
+theorem clamp_sample_index {w h : ℕ} (hw : 1 ≤ w) (hw' : w ≤ 2 ^ 24) (hh : 1 ≤ h) (hh' : h ≤ 2 ^ 24)
+    {u v : UInt32} {qu qv : ℚ} (hu : toRat? u = some qu) (hv : toRat? v = some qv) :
+    clampSampleAbs (Texture.ofDims w h) u v = .ok (Spec.Tex.clampIdx w qu, Spec.Tex.clampIdx h qv) := by
+  have cu := clamp_index_spec hw (by omega : w ≤ 2 ^ 32) hu (clamp_hi_exact hw hw')
+  have cv := clamp_index_spec hh (by omega : h ≤ 2 ^ 32) hv (clamp_hi_exact hh hh')
+  obtain ⟨iu, hiu, hul⟩ := clamp_axis_in_bounds hw hw' u
+  obtain ⟨iv, hiv, hvl⟩ := clamp_axis_in_bounds hh hh' v
+  unfold clampAxis clampAxisF at hiu hiv
+  unfold clampAxisHi at cu cv
+  have eu : iu = Spec.Tex.clampIdx w qu := by rw [hiu] at cu; exact Outcome.ok.inj cu
+  have ev : iv = Spec.Tex.clampIdx h qv := by rw [hiv] at cv; exact Outcome.ok.inj cv
+  unfold clampSampleAbs clampSampleAbsF clampAxisF Texture.ofDims
+  simp only [hiu, hiv]
+  have m1 : min iu (w - 1) = iu := by omega
+  have m2 : min iv (h - 1) = iv := by omega
+  rw [m1, m2, ← eu, ← ev]
   unfold index; simp [hul, hvl]
 
 /-- An empty texture is rejected by the clamp itself (`0.0.clamp(0.0, -1.0)` panics) – the error
@@ -398,11 +468,12 @@ branch the property excludes by "non-empty". -/
 theorem clamp_empty_panics (h : ℕ) (u v : UInt32) :
     ∃ m, clampSampleAbs (Texture.ofDims 0 h) u v = .panic m := by
   have hhi : toRat? (sub (intToF32 (0 : ℕ)) one) = some (-1) := by decide +kernel
-  have : clampAxis (intToF32 ((0 : ℕ) : ℤ)) u = .panic "clamp: min > max, or either was NaN" := by
-    unfold clampAxis clampAxisHi clamp
+  have : clampAxisF F32.floor (intToF32 ((0 : ℕ) : ℤ)) u = .panic "clamp: min > max, or either was NaN" := by
+    unfold clampAxisF clampAxisHiF clamp
     rw [le_finite toRat?_zero hhi]
     simp
-  exact ⟨"clamp: min > max, or either was NaN", by unfold clampSampleAbs Texture.ofDims; simp only [this]⟩
+  exact ⟨"clamp: min > max, or either was NaN", by
+    unfold clampSampleAbs clampSampleAbsF Texture.ofDims; simp only [this]⟩
 
 /-- **once_agrees (whole sampler).** For in-range coordinates the unchecked sampler returns the same
 texel `(⌊u⌋, ⌊v⌋)` as the clamping sampler, and neither panics. -/
@@ -437,22 +508,41 @@ theorem once_agrees {w h : ℕ} (hw' : w ≤ 2 ^ 24) (hh' : h ≤ 2 ^ 24) {u v :
   · unfold onceSampleAbs index Texture.ofDims
     simp only [iu, iv]
     simp [hul, hvl]
-  · unfold clampSampleAbs clampAxis Texture.ofDims
+  · unfold clampAxisHi at cu cv
+    unfold clampSampleAbs clampSampleAbsF clampAxisF Texture.ofDims
     simp only [cu, cv, iu, iv]
+    have m1 : min ⌊qu⌋.toNat (w - 1) = ⌊qu⌋.toNat := by omega
+    have m2 : min ⌊qv⌋.toNat (h - 1) = ⌊qv⌋.toNat := by omega
+    rw [m1, m2]
     unfold index; simp [hul, hvl]
 
 example : toRat? 0x40200000 = some (5/2) ∧
     onceSampleAbs (Texture.ofDims 3 5) 0x40200000 0x40200000 = .ok (2, 2) := by decide +kernel
 
-/-! ### Beyond 2^24: the float width is no longer the integer width
+/-! ### Why the guard is needed: the unguarded formula (the code before fix 5063a3c) -/
 
-`tex.w` is `data.width() as f32` and the clamp bound is `tex.w - 1.0`, both rounded.  From
-`w = 2^24 + 3` on they can exceed `w − 1`, and the "clamped" index leaves the texture. -/
+/-- `SamplerClamp::sample_abs` as it was before 5063a3c: the float clamp only. -/
+def clampSampleAbsUnguarded (t : Texture) (u v : UInt32) : Outcome (Nat × Nat) :=
+  match clampAxis t.w u with
+  | .panic s => .panic s
+  | .ok iu =>
+    match clampAxis t.h v with
+    | .panic s => .panic s
+    | .ok iv => index t iu iv
 
-/-- A 16777219-texel-wide texture: the coordinate `1e9` is clamped to `16777220.0`, outside the
-texture, and the index panics.  (Witness of finding `clamp-wide-texture`.) -/
+/-- On a 16777219-texel-wide texture the unguarded formula clamps the coordinate `1e9` to
+`16777220.0`, outside the texture, and the index panics (the fixed defect `clamp-wide-texture`);
+the guarded sampler returns the last texel. -/
 theorem clamp_wide_texture_out_of_bounds :
-    clampSampleAbs (Texture.ofDims 16777219 1) 0x4E6E6B28 0 = .panic "position out of bounds" := by
+    clampSampleAbsUnguarded (Texture.ofDims 16777219 1) 0x4E6E6B28 0 = .panic "position out of bounds" ∧
+    clampSampleAbs (Texture.ofDims 16777219 1) 0x4E6E6B28 0 = .ok (16777218, 0) := by
+  decide +kernel
+
+/-- What remains beyond 2^24 is coordinate resolution, not safety: on a 16777217-wide texture the
+bound `tex.w - 1.0` is `16777215.0`, so the coordinate `16777216.0` (and everything above) addresses
+texel 16777215, one short of the last column – within one ulp (2.0) of the coordinate itself. -/
+theorem clamp_wide_texture_last_column :
+    clampSampleAbs (Texture.ofDims 16777217 1) 0x4B800000 0 = .ok (16777215, 0) := by
   decide +kernel
 
 end Retro.Props.C12
